@@ -64,6 +64,10 @@ def envelope_of(ev: dict) -> Any:
         return E.from_event(m["events"].StopEvent(result={"k": ev["k"], key: ev["msg"]}))
     if ev["kind"] == "ev":
         return E.from_event(m["events"].Event(**{"k": ev["k"], key: ev["msg"]}))
+    if ev["kind"] == "internal":
+        # a real InternalDispatchEvent subclass; the fields carry k and msg so that payloads stay distinct
+        return E.from_event(m["events"].UnhandledEvent(event_type=f"E{ev['k']}", qualified_name=ev["msg"], step_name=ev.get("key"),
+                                                       idle=bool(ev["k"] % 2)))
     # hand-built envelope (arbitrary type names)
     return E(value={"k": ev["k"], key: ev["msg"]}, qualified_name=ev.get("qn"), type=ev.get("type", "Custom"),
              types=ev.get("types"))
@@ -72,6 +76,18 @@ def envelope_of(ev: dict) -> Any:
 def payload_of(ev: dict) -> str:
     """The JSON text `_stream_events` puts after `data: ` (same real method call)."""
     return envelope_of(ev).model_dump_json()
+
+
+def is_internal(ev: dict) -> bool:
+    """The event is an `InternalDispatchEvent` (real class check for real events; for hand-built
+    envelopes: the class name is the envelope's type or among its `types`)."""
+    m = mods()
+    if ev["kind"] == "internal":
+        return issubclass(m["events"].UnhandledEvent, m["events"].InternalDispatchEvent)
+    if ev["kind"] == "custom":
+        name = m["events"].InternalDispatchEvent.__name__
+        return ev.get("type") == name or name in (ev.get("types") or [])
+    return False
 
 
 def is_terminal(ev: dict) -> bool:
@@ -136,6 +152,33 @@ async def reveal(store: Any, upto: int) -> None:
             cond.notify_all()
 
 
+def pauses_for(case: dict, cursor: Any, hb_counts: list[int]) -> list[float]:
+    """Virtual-time pauses before the events `subscribe_events` will yield after `cursor`, such that
+    `hb_counts[i]` heartbeat comments appear before the i-th *frame*: events the include_internal
+    flag hides produce no frame and get no pause."""
+    hb = case.get("hb")
+    if not hb:
+        return []
+    dur = [(c * hb + hb / 2) if c else 0.0 for c in hb_counts]
+    if case.get("incl", True) or not any(is_internal(e) for e in case["events"]):
+        return dur
+    try:
+        cur = int(cursor)
+    except (TypeError, ValueError):
+        return dur
+    res: list[float] = []
+    k = 0
+    for e in case["events"]:
+        if e["seq"] <= cur:
+            continue
+        if is_internal(e):
+            res.append(0.0)
+        else:
+            res.append(dur[k] if k < len(dur) else 0.0)
+            k += 1
+    return res
+
+
 def make_api(store: Any, hb: float | None) -> Any:
     m = mods()
     return m["api"]._WorkflowAPI(SimpleNamespace(store=store), sse_heartbeat_interval=hb)
@@ -155,9 +198,10 @@ async def serve_body(case: dict, cursor: str, hb_counts: list[int]) -> tuple[int
     body produced so far."""
     store = make_store(case)
     hb = case.get("hb")
-    store.pauses = [(c * hb + hb / 2) if (hb and c) else 0.0 for c in hb_counts]
+    store.pauses = pauses_for(case, cursor, hb_counts)
     api = make_api(store, hb)
-    req = FakeRequest({"handler_id": HANDLER}, {"sse": "true", "after_sequence": cursor, "include_internal": "false"}, {})
+    req = FakeRequest({"handler_id": HANDLER}, {"sse": "true", "after_sequence": cursor,
+                                                "include_internal": "true" if case.get("incl") else "false"}, {})
     exc_t = mods()["api"].HTTPException
     try:
         resp = await api._stream_events(req)
@@ -346,8 +390,7 @@ class ScriptedTransport(httpx.AsyncBaseTransport):
                 return httpx.Response(int(conn["status"]), content=b'{"detail":"scripted"}', request=request)
             return httpx.Response(200, headers={"content-type": "text/event-stream; charset=utf-8"},
                                   stream=RawStream(conn["body"].encode("utf-8"), conn, request), request=request)
-        hb = self.case.get("hb")
-        self.store.pauses = [(c * hb + hb / 2) if (hb and c) else 0.0 for c in conn.get("hb", [])]
+        self.store.pauses = pauses_for(self.case, params.get("after_sequence"), conn.get("hb", []))
         req = FakeRequest({"handler_id": request.url.path.rsplit("/", 1)[-1]}, params, dict(request.headers))
         exc_t = mods()["api"].HTTPException
         try:
@@ -402,6 +445,8 @@ def run_real(case: dict) -> dict:
             kwargs["after_sequence"] = case["c0"]
         if case["max"] != "D":
             kwargs["max_reconnect_attempts"] = case["max"]
+        if "incl" in case:
+            kwargs["include_internal_events"] = bool(case["incl"])
         stream = client.get_workflow_events(HANDLER, **kwargs)
         obs: dict = {"yielded": [], "res": None, "initial_last": stream.last_sequence}
 
